@@ -600,9 +600,9 @@ impl GroupAggregator {
             GroupAggregator::Sum(sum) => sum.is_null(),
             GroupAggregator::Average { sum, .. } => sum.is_null(),
             GroupAggregator::StandardDeviation { sum, sum_square, .. } => sum.is_null() || sum_square.is_null(),
-            GroupAggregator::Percentile { .. } => false,
-            GroupAggregator::BoolAnd { .. } => false,
-            GroupAggregator::BoolOr { .. } => false,
+            GroupAggregator::Percentile { values, .. } => values.is_empty(),
+            GroupAggregator::BoolAnd { value } => value.is_none(),
+            GroupAggregator::BoolOr { value } => value.is_none(),
             GroupAggregator::CountDistinct(_) => false
         }
     }
